@@ -46,6 +46,9 @@ func (k *C12Key) identity() string {
 	case "bool":
 		return fmt.Sprintf("b:%v", k.Bool)
 	case "time":
+		if tm := c12Times[k.Time%len(c12Times)]; tm.same > 0 {
+			return fmt.Sprintf("t:%d", tm.same)
+		}
 		return fmt.Sprintf("t:%d", k.Time)
 	}
 	return k.Class + ":" + string(k.Text)
@@ -54,14 +57,24 @@ func (k *C12Key) identity() string {
 type c12Time struct {
 	t   compact_time.Time
 	cte string
+	// same: index of the entry this one denotes the same value as (a UTC time spelled with another of the
+	// tz database's names for UTC: the library treats them all as the zero zone and both encoders write them
+	// back without a zone); 0 for none - entry 0 is never an alias target
+	same int
 }
 
 var c12Times = []c12Time{
-	{compact_time.NewDate(2020, 1, 15), "2020-01-15"},
-	{compact_time.NewDate(2020, 1, 16), "2020-01-16"},
-	{compact_time.NewTime(10, 30, 0, 0, compact_time.TZAtUTC()), "10:30:00"},
-	{compact_time.NewTimestamp(2020, 1, 15, 10, 30, 0, 0, compact_time.TZAtUTC()), "2020-01-15/10:30:00"},
-	{compact_time.NewTimestamp(2020, 1, 15, 10, 30, 0, 500000000, compact_time.TZAtAreaLocation("Europe/Berlin")), "2020-01-15/10:30:00.5/Europe/Berlin"},
+	{t: compact_time.NewDate(2020, 1, 15), cte: "2020-01-15"},
+	{t: compact_time.NewDate(2020, 1, 16), cte: "2020-01-16"},
+	{t: compact_time.NewTime(10, 30, 0, 0, compact_time.TZAtUTC()), cte: "10:30:00"},
+	{t: compact_time.NewTimestamp(2020, 1, 15, 10, 30, 0, 0, compact_time.TZAtUTC()), cte: "2020-01-15/10:30:00"},
+	{t: compact_time.NewTimestamp(2020, 1, 15, 10, 30, 0, 500000000, compact_time.TZAtAreaLocation("Europe/Berlin")), cte: "2020-01-15/10:30:00.5/Europe/Berlin"},
+	// other spellings of UTC for entries 2 and 3
+	{t: compact_time.NewTime(10, 30, 0, 0, compact_time.TZAtAreaLocation("UTC")), cte: "10:30:00/UTC", same: 2},
+	{t: compact_time.NewTime(10, 30, 0, 0, compact_time.TZAtAreaLocation("Etc/UTC")), cte: "10:30:00/Etc/UTC", same: 2},
+	{t: compact_time.NewTime(10, 30, 0, 0, compact_time.TZAtAreaLocation("Zulu")), cte: "10:30:00/Zulu", same: 2},
+	{t: compact_time.NewTimestamp(2020, 1, 15, 10, 30, 0, 0, compact_time.TZAtAreaLocation("Etc/GMT")), cte: "2020-01-15/10:30:00/Etc/GMT", same: 3},
+	{t: compact_time.NewTimestamp(2020, 1, 15, 10, 30, 0, 0, compact_time.TZAtAreaLocation("Z")), cte: "2020-01-15/10:30:00/Z", same: 3},
 }
 
 var c12Ints = func() []string {
